@@ -87,6 +87,23 @@ func (q *PriorityQueue[T]) Dequeue() (any, bool) {
 	return popped.Value, true
 }
 
+// PurgeValues removes all items and returns their values, atomically with respect to
+// Enqueue and Dequeue: an item is either returned or still in the queue.
+func (q *PriorityQueue[T]) PurgeValues() []any {
+	q.mx.Lock()
+	defer q.mx.Unlock()
+
+	values := make([]any, 0)
+	for _, item := range q.internal.items {
+		values = append(values, item.Value)
+	}
+
+	q.internal.items = make([]*enqItem[T], 0)
+	heap.Init(q.internal)
+
+	return values
+}
+
 func (q *PriorityQueue[T]) Purge() {
 	q.mx.Lock()
 	defer q.mx.Unlock()
